@@ -47,6 +47,8 @@ NAMED_TYPES = {'box': BOX, 'kp': KP, 'c6': C6, 'Q': Q, 'Z': Z, 'bool': B, 'str':
 def parse_type(t):
     if t == 'hdr':
         return 'hdr'
+    if t == 'bmask':
+        return 'bmask'
     if isinstance(t, str):
         if t in NAMED_TYPES:
             return NAMED_TYPES[t]
@@ -75,6 +77,8 @@ def coq_type(t):
         return 'view'
     if t == 'hdr':
         return 'header'
+    if t == 'bmask':
+        return 'bmask'
     if t == NONE:
         return 'unit'
     if t[0] == 'tuple':
@@ -116,6 +120,7 @@ NAME_TYPES = {
     'pad_height_divisor': 'opt:Z', 'pad_width_divisor': 'opt:Z', 'pad_depth_divisor': 'opt:Z',
     'keep_size': 'bool', 'crop_to_border': 'bool', 'rotate_method': 'str', 'pad_mode': 'str',
     'slope': 'Q', 'intercept': 'Q', 'space_x': 'Q', 'space_y': 'Q',
+    'drop_mask': 'bmask', 'drop_value': 'Q',
 }
 NAME_TYPES_P = {}
 
@@ -413,6 +418,10 @@ class FnTranslator:
             v = self.expr(node.value, env)
             if v.ty == ARR:
                 return Expr('(vshape %s)' % v.code, T(Z, Z, Z), v.binds)
+        if node.attr == 'ndim':
+            v = self.expr(node.value, env)
+            if v.ty in (ARR, 'bmask'):
+                return self.num_lit(3)     # the channel axis is not modelled
         if isinstance(node.value, ast.Name):
             base = node.value.id
             if base in ('math', 'np', 'numpy') and node.attr == 'pi':
@@ -635,7 +644,7 @@ class FnTranslator:
         return Expr('(' + ', '.join(e.code for e in out) + ')', T(*[e.ty for e in out]), binds)
 
     def e_ListComp(self, node, env):
-        if len(node.generators) != 1 or node.generators[0].ifs or not isinstance(node.generators[0].target, ast.Name):
+        if len(node.generators) != 1 or not isinstance(node.generators[0].target, ast.Name):
             raise TransError('unsupported comprehension at line %d' % node.lineno)
         g = node.generators[0]
         it = self.expr(g.iter, env)
@@ -643,6 +652,16 @@ class FnTranslator:
             raise TransError('comprehension over %s at line %d' % (it.ty, node.lineno))
         env2 = dict(env)
         env2[g.target.id] = it.ty[1]
+        if g.ifs:
+            # [x for x in l if c(x)] with a pure condition: List.filter (order preserved)
+            if not (isinstance(node.elt, ast.Name) and node.elt.id == g.target.id):
+                raise TransError('filtering comprehension with a mapped element at line %d' % node.lineno)
+            conds = [self.truthy(self.expr(c, env2)) for c in g.ifs]
+            if any(c.binds for c in conds):
+                raise TransError('effects in a comprehension filter at line %d' % node.lineno)
+            v = vname(g.target.id)
+            return Expr('(List.filter (fun %s : %s => %s) %s)' % (v, coq_type(it.ty[1]), ' && '.join(c.code for c in conds),
+                                                                 it.code), it.ty, it.binds)
         body = self.expr(node.elt, env2)
         v = vname(g.target.id)
         if body.binds:
@@ -915,6 +934,26 @@ class FnTranslator:
             n1, n2 = self.fresh('a'), self.fresh('a')
             return Expr("(let '(%s, %s) := %s in v_rot90 %s (Z.to_nat %s) (Z.to_nat %s) %s)"
                         % (n1, n2, ax.code, k.code, n1, n2, a.code), ARR, a.binds + k.binds + ax.binds)
+        if fname == 'isinstance':
+            sb = self.static_bool(node, env)
+            if sb is None:
+                raise TransError('isinstance not decided by the declared types at line %d' % node.lineno)
+            return Expr('true' if sb else 'false', B)
+        if fname in ('np.zeros_like', 'np.full_like') and args:
+            a = self.expr(args[0], env)
+            if a.ty != ARR:
+                raise TransError('%s of %s at line %d' % (fname, a.ty, node.lineno))
+            val = Expr('0', Q) if fname == 'np.zeros_like' else self.coerce(self.expr(args[1], env), Q)
+            return Expr('(v_full (vshape %s) %s)' % (a.code, val.code), ARR, a.binds + val.binds)
+        if fname == 'np.where' and len(args) == 3:
+            m_, a, b = [self.expr(x, env) for x in args]
+            if m_.ty != 'bmask' or a.ty != ARR or b.ty != ARR:
+                raise TransError('np.where argument types at line %d' % node.lineno)
+            return Expr('(v_where %s %s %s)' % (m_.code, a.code, b.code), ARR, m_.binds + a.binds + b.binds)
+        if fname == 'np.squeeze' and args:
+            a = self.expr(args[0], env)
+            if a.ty == 'bmask':
+                return a                   # drops the (unmodelled) channel axis
         if fname == 'np.pad':
             a = self.expr(args[0], env)
             kws = {kw.arg: kw.value for kw in node.keywords}
@@ -999,6 +1038,9 @@ class FnTranslator:
             return self.emit_call(target, argcodes)
         # --- methods of the same class: self.m(...)
         if fname.startswith('self.__') and self.spec.cls and (self.spec.cls + '_' + fname[5:].lstrip('_')) in self.registry:
+            target = self.registry[self.spec.cls + '_' + fname[5:].lstrip('_')]
+            return self.call_translated(target, node, env)
+        if fname.startswith('self._') and self.spec.cls and (self.spec.cls + '_' + fname[5:].lstrip('_')) in self.registry:
             target = self.registry[self.spec.cls + '_' + fname[5:].lstrip('_')]
             return self.call_translated(target, node, env)
         if fname.startswith('self.') and self.spec.cls and (self.spec.cls + '_' + fname[5:]) in self.registry:
@@ -1092,6 +1134,15 @@ class FnTranslator:
             raise TransError('complex generator')
         g = gen.generators[0]
         it = self.expr(g.iter, env)
+        if isinstance(it.ty, tuple) and it.ty[0] == 'list' and isinstance(g.target, ast.Name):
+            env2 = dict(env)
+            env2[g.target.id] = it.ty[1]
+            e = self.truthy(self.expr(gen.elt, env2))
+            if e.binds:
+                raise TransError('effects in generator')
+            op = 'forallb' if fname == 'all' else 'existsb'
+            return Expr('(%s (fun %s : %s => %s) %s)' % (op, vname(g.target.id), coq_type(it.ty[1]), e.code, it.code),
+                        B, it.binds)
         if not (isinstance(it.ty, tuple) and it.ty[0] == 'tuple'):
             raise TransError('all/any over non-tuple')
         names = self.tuple_components(it)
@@ -1286,6 +1337,14 @@ class FnTranslator:
             return self.with_binds(c.binds, '(if %s then %s else Raise AssertionError)' % (c.code, cont(env)))
         if isinstance(st, (ast.Assign, ast.AnnAssign)):
             targets = st.targets if isinstance(st, ast.Assign) else [st.target]
+            if len(targets) > 1 and all(isinstance(t, ast.Name) for t in targets):
+                # a = b = e  ==  a = e; b = a
+                first = ast.copy_location(ast.Assign(targets=[targets[0]], value=st.value), st)
+                others = [ast.copy_location(ast.Assign(targets=[t], value=ast.Name(id=targets[0].id, ctx=ast.Load())), st)
+                          for t in targets[1:]]
+                for x in [first] + others:
+                    ast.fix_missing_locations(x)
+                return self.block([first] + others + list(rest), env, k)
             if len(targets) != 1:
                 raise TransError('chained assignment')
             if getattr(self.spec, 'sampler', False) and isinstance(st.value, ast.Call) \
@@ -1417,7 +1476,79 @@ class FnTranslator:
                     return '@self_' + sp, isinstance(test.ops[0], ast.Is)
         return None
 
+    def opt_truthy_operands(self, test, env):
+        """operands of `a` / `a and b and ...` when every operand is an Optional[int] variable or attribute"""
+        ops = test.values if isinstance(test, ast.BoolOp) and isinstance(test.op, ast.And) else [test]
+        out = []
+        for o in ops:
+            t = None
+            if isinstance(o, ast.Name) and o.id in env:
+                t = env[o.id]
+            elif isinstance(o, ast.Attribute):
+                sp = self.self_path(o, env)
+                if sp is not None and sp in self.spec.self_attrs:
+                    t = env.get('@self_' + sp, self.spec.self_attrs[sp])
+            if not (isinstance(t, tuple) and t[0] == 'opt' and t[1] == Z):
+                return None
+            out.append(o)
+        return out
+
+    def static_bool(self, node, env):
+        """True / False when the test is decided by the declared TYPES alone (isinstance of an instance
+        attribute or variable against int / float, and all([...]) / any([...]) / and / or / not of such), else None"""
+        if isinstance(node, ast.Call) and isinstance(node.func, ast.Name) and node.func.id == 'isinstance' \
+                and len(node.args) == 2 and (
+                    (isinstance(node.args[1], ast.Name) and node.args[1].id in ('int', 'float'))
+                    or (isinstance(node.args[1], ast.Tuple) and node.args[1].elts
+                        and all(isinstance(x, ast.Name) and x.id in ('int', 'float') for x in node.args[1].elts))):
+            try:
+                e = self.expr(node.args[0], env)
+            except TransError:
+                return None
+            kinds = [node.args[1].id] if isinstance(node.args[1], ast.Name) else [x.id for x in node.args[1].elts]
+            if e.ty == Z:
+                return 'int' in kinds
+            if e.ty == Q:
+                return 'float' in kinds
+            return None
+        if isinstance(node, ast.Call) and isinstance(node.func, ast.Name) and node.func.id in ('all', 'any') \
+                and len(node.args) == 1 and isinstance(node.args[0], (ast.List, ast.Tuple)):
+            vals = [self.static_bool(x, env) for x in node.args[0].elts]
+            if any(v is None for v in vals):
+                return None
+            return all(vals) if node.func.id == 'all' else any(vals)
+        if isinstance(node, ast.BoolOp):
+            vals = [self.static_bool(x, env) for x in node.values]
+            if any(v is None for v in vals):
+                return None
+            return all(vals) if isinstance(node.op, ast.And) else any(vals)
+        if isinstance(node, ast.UnaryOp) and isinstance(node.op, ast.Not):
+            v = self.static_bool(node.operand, env)
+            return None if v is None else (not v)
+        return None
+
     def if_stmt(self, st, rest, env, k):
+        sb = self.static_bool(st.test, env)
+        if sb is not None:
+            # decided by the declared types of this specialisation: only the taken branch exists
+            taken = st.body if sb else st.orelse
+            return self.block(list(taken) + list(rest), env, k)
+        # truthiness of Optional[int] operands (`if self.a and self.b:`): None and 0 are false.
+        # Rewritten into the nested is-not-None / non-zero tests the narrowing below understands.
+        opt_ops = self.opt_truthy_operands(st.test, env)
+        if opt_ops:
+            import copy as _copy
+            inner = st.body
+            for op in reversed(opt_ops):
+                nz = ast.If(test=ast.Compare(left=_copy.deepcopy(op), ops=[ast.NotEq()], comparators=[ast.Constant(value=0)]),
+                            body=inner, orelse=_copy.deepcopy(st.orelse))
+                nn = ast.If(test=ast.Compare(left=_copy.deepcopy(op), ops=[ast.IsNot()], comparators=[ast.Constant(value=None)]),
+                            body=[nz], orelse=_copy.deepcopy(st.orelse))
+                ast.copy_location(nz, st)
+                ast.copy_location(nn, st)
+                ast.fix_missing_locations(nn)
+                inner = [nn]
+            return self.if_stmt(inner[0], rest, env, k)
         nar = self.narrowing(st.test, env)
         if nar is None:
             c = self.truthy(self.expr(st.test, env))
@@ -1909,6 +2040,28 @@ def class_method_specs(m, tree, cspec, errors):
         sp.kwrest = None
         sp.skip_sig_check = True
         specs.append(sp)
+    # loop samplers:  <prefix>; for _ in range(<count>): <body>; acc.append(<elem>)   ;  return {key: acc}
+    # are emitted as two functions, <name>_count (the loop count) and <name>_body (one iteration -> elem)
+    for meth, mparams in cspec.get('loop_samplers', {}).items():
+        fn = find(meth)
+        try:
+            count_fn, body_fn, loop_vars = split_loop_sampler(fn)
+        except TransError as e:
+            errors.append({'function': name + '.' + meth, 'file': m['file'], 'error': str(e)})
+            continue
+        for part, node in (('count', count_fn), ('body', body_fn)):
+            cn = cspec.get('coq_prefix', name) + '_' + meth.lstrip('_') + '_' + part
+            extra = [(v, 'Z') for v in loop_vars] if part == 'body' else []
+            sp = FnSpec(meth + '_' + part, [(pn, pt) for pn, pt in mparams] + extra, cls=cspec.get('coq_prefix', name),
+                        self_attrs=self_attrs, coq_name=cn)
+            sp.node = node
+            sp.decos = []
+            sp.sampler = True
+            sp.cls_nodes = nodes
+            sp.has_kwargs = False
+            sp.kwrest = None
+            sp.skip_sig_check = True
+            specs.append(sp)
     # inherited DualTransform.apply_to_mask: self.apply(img, **{k: INTER_NEAREST if k == "interpolation" else v ...})
     methods = cspec.get('methods', APPLY_METHODS)
     if 'apply_to_mask' in methods and find('apply_to_mask') is None and find('apply') is not None \
@@ -1922,6 +2075,72 @@ def class_method_specs(m, tree, cspec, errors):
         sp.cls_nodes = nodes
         specs.append(sp)
     return specs
+
+
+def split_loop_sampler(fn):
+    """fn:  <prefix>; acc = []; for a in range(E1): [for b in range(E2): ...] <body>; acc.append(X);  return {"k": acc}
+    -> (FunctionDef returning (E1, E2, ...), FunctionDef returning X after <body>, loop variables read by the body);
+    both functions start with the prefix.  The accumulator must be created empty, appended to exactly once per
+    innermost iteration (last statement), read nowhere and returned as the only value of the dict."""
+    if fn is None:
+        raise TransError('loop sampler not found')
+    body = [st for st in fn.body if not (isinstance(st, ast.Expr) and isinstance(st.value, ast.Constant))]
+    loops = [i for i, st in enumerate(body) if isinstance(st, ast.For)]
+    if len(loops) != 1:
+        raise TransError('loop sampler: expected exactly one top-level for loop in %s' % fn.name)
+    i = loops[0]
+    prefix, after = body[:i], body[i + 1:]
+    chain = [body[i]]
+    while len(chain[-1].body) == 1 and isinstance(chain[-1].body[0], ast.For):
+        chain.append(chain[-1].body[0])
+    for loop in chain:
+        if not (isinstance(loop.iter, ast.Call) and isinstance(loop.iter.func, ast.Name) and loop.iter.func.id == 'range'
+                and len(loop.iter.args) == 1 and not loop.orelse and isinstance(loop.target, ast.Name)):
+            raise TransError('loop sampler: loop is not `for v in range(E)`')
+    inner = chain[-1]
+    last = inner.body[-1]
+    if not (isinstance(last, ast.Expr) and isinstance(last.value, ast.Call) and isinstance(last.value.func, ast.Attribute)
+            and last.value.func.attr == 'append' and isinstance(last.value.func.value, ast.Name) and len(last.value.args) == 1):
+        raise TransError('loop sampler: the loop body does not end with acc.append(X)')
+    acc = last.value.func.value.id
+
+    def tgt(st):
+        return st.targets[0] if isinstance(st, ast.Assign) else st.target
+    decl = [st for st in prefix if isinstance(st, (ast.Assign, ast.AnnAssign)) and isinstance(tgt(st), ast.Name)
+            and tgt(st).id == acc]
+    if len(decl) != 1 or not (isinstance(decl[0].value, ast.List) and not decl[0].value.elts):
+        raise TransError('loop sampler: accumulator %s is not initialised to []' % acc)
+    loop_vars = [l.target.id for l in chain]
+    used = []
+    for st in list(inner.body[:-1]) + [ast.Expr(value=last.value.args[0])]:
+        for n in ast.walk(st):
+            if isinstance(n, ast.Name) and n.id == acc:
+                raise TransError('loop sampler: the loop body reads %s' % acc)
+            if isinstance(n, ast.Name) and n.id in loop_vars and n.id not in used:
+                used.append(n.id)
+    # the counts may not depend on outer loop variables
+    for l in chain:
+        for n in ast.walk(l.iter):
+            if isinstance(n, ast.Name) and n.id in loop_vars:
+                raise TransError('loop sampler: a loop count depends on a loop variable')
+    if not (len(after) == 1 and isinstance(after[0], ast.Return) and isinstance(after[0].value, ast.Dict)
+            and len(after[0].value.values) == 1 and isinstance(after[0].value.values[0], ast.Name)
+            and after[0].value.values[0].id == acc):
+        raise TransError('loop sampler: the function does not end with return {key: %s}' % acc)
+    prefix = [st for st in prefix if st is not decl[0]]
+    import copy as _copy
+
+    def mk(name, stmts):
+        f = ast.FunctionDef(name=name, args=fn.args, body=stmts, decorator_list=[], returns=None, lineno=fn.lineno,
+                            col_offset=0)
+        return ast.fix_missing_locations(f)
+    counts = [l.iter.args[0] for l in chain]
+    cexpr = counts[0] if len(counts) == 1 else ast.Tuple(elts=counts, ctx=ast.Load())
+    ret_e = ast.Return(value=cexpr, lineno=chain[0].lineno, col_offset=0)
+    ret_x = ast.Return(value=last.value.args[0], lineno=last.lineno, col_offset=0)
+    return (mk(fn.name + '_count', _copy.deepcopy(prefix) + [ret_e]),
+            mk(fn.name + '_body', _copy.deepcopy(prefix) + _copy.deepcopy(inner.body[:-1]) + [ret_x]),
+            [v for v in loop_vars if v in used])
 
 
 def find_functions(tree):
